@@ -508,15 +508,9 @@ func (s *HASyncer) standbyLoop() {
 		default:
 		}
 
-		// Perform initial full sync
-		if err := s.performFullSync(); err != nil {
-			s.logger.Error("Full sync failed", zap.Error(err))
-			s.recordError(err)
-			s.waitReconnect()
-			continue
-		}
-
-		// Connect to SSE stream
+		// Connect to the SSE stream; the full sync is performed once the stream
+		// is attached (see connectToStream) so that no change pushed by the
+		// active can fall between the snapshot and the stream.
 		if err := s.connectToStream(); err != nil {
 			s.logger.Error("Stream connection failed", zap.Error(err))
 			s.recordError(err)
@@ -611,6 +605,15 @@ func (s *HASyncer) connectToStream() error {
 	if resp.StatusCode != http.StatusOK {
 		body, _ := io.ReadAll(resp.Body)
 		return fmt.Errorf("server returned %d: %s", resp.StatusCode, string(body))
+	}
+
+	// The active registers this client before it sends the response headers,
+	// so every change pushed from now on is queued on the stream. Take the full
+	// snapshot now: changes that are both in the snapshot and on the stream are
+	// re-applied in push order (puts and deletes are idempotent), changes made
+	// before the snapshot are in it, and nothing in between is lost.
+	if err := s.performFullSync(); err != nil {
+		return fmt.Errorf("full sync: %w", err)
 	}
 
 	s.mu.Lock()
